@@ -57,17 +57,17 @@ DEEP = {
     "C02": ["CoseProofs.Deep.Tbs", "CoseProofs.Ties.C02"],
     "C03": ["CoseProofs.Deep.Tbs", "CoseProofs.Deep.Tamper", "CoseProofs.Deep.Signers", "CoseProofs.Ties.C03"],
     "C04": ["CoseProofs.Deep.Tamper", "CoseProofs.Deep.AlgWire", "CoseProofs.Deep.SignClear", "CoseProofs.Ties.C04"],
-    "C05": ["CoseProofs.Deep.Reencode", "CoseProofs.Deep.Accept", "CoseProofs.Deep.SignMsg", "CoseProofs.Deep.NestedRoundTrip", "CoseProofs.Ties.C05"],
+    "C05": ["CoseProofs.Deep.TagScan", "CoseProofs.Deep.Reencode", "CoseProofs.Deep.Accept", "CoseProofs.Deep.SignMsg", "CoseProofs.Deep.NestedRoundTrip", "CoseProofs.Ties.C05"],
     "C06": ["CoseProofs.Deep.NoPanic", "CoseProofs.Ties.C06"],
-    "C07": ["CoseProofs.Deep.Accept", "CoseProofs.Deep.Verifies"],
+    "C07": ["CoseProofs.Deep.TagScan", "CoseProofs.Deep.Accept", "CoseProofs.Deep.Verifies"],
     "C08": ["CoseProofs.Deep.Headers", "CoseProofs.Deep.RoundTrip", "CoseProofs.Deep.NestedRoundTrip", "CoseProofs.Deep.NestedBuckets", "CoseProofs.Deep.CsigRoundTrip"],
     "C09": ["CoseProofs.Deep.Reencode", "CoseProofs.Deep.SignMsg", "CoseProofs.Deep.ClearRaw", "CoseProofs.Deep.NestedClosures", "CoseProofs.Deep.CsigClosures", "CoseProofs.Deep.SignClear"],
     "C11": ["CoseProofs.Deep.SignMsg"],
     "C10": ["CoseProofs.Deep.Tbs", "CoseProofs.Deep.Tamper", "CoseProofs.Ties.C10"],
     "C12": ["CoseProofs.Deep.Keys", "CoseProofs.Deep.Chain", "CoseProofs.Deep.WireClosure", "CoseProofs.Deep.NestedClosures", "CoseProofs.Ties.C12"],
-    "C13": ["CoseProofs.Deep.Headers", "CoseProofs.Deep.Verifies", "CoseProofs.Ties.C13"],
+    "C13": ["CoseProofs.Deep.TagScan", "CoseProofs.Deep.Headers", "CoseProofs.Deep.Verifies", "CoseProofs.Ties.C13"],
     "C14": ["CoseProofs.Deep.Keys", "CoseProofs.Deep.KeyRoundTrip", "CoseProofs.Ties.C14"],
-    "C15": ["CoseProofs.Deep.Keys", "CoseProofs.Deep.KeyRoundTrip", "CoseProofs.Ties.C15"],
+    "C15": ["CoseProofs.Deep.TagScan", "CoseProofs.Deep.Keys", "CoseProofs.Deep.KeyRoundTrip", "CoseProofs.Ties.C15"],
     "C17": ["CoseProofs.Deep.Signers", "CoseProofs.Ties.C17"],
     "C20": ["CoseProofs.Deep.Tamper", "CoseProofs.Deep.Signers", "CoseProofs.Ties.C20"],
     "C18": ["CoseProofs.Ties.C18"],
